@@ -84,4 +84,6 @@ def panel (f : Feat) : Panel :=
     prog := prog f,
     ctrl := .ssd (Ssd.por false 20 296) }
 
+attribute [driver_simp] W hwReset swReset dataEntryMode setDisplayWindow updateControl1 setCursor blackWhitePattern redPattern init updateAchromatic updateChromatic updateFrame displayFrame clearFrame prog
+
 end EpdVerif.Drivers.Epd2in66b
